@@ -782,7 +782,7 @@ func c19states(thorough bool) (names []string, trees []*c19util.Node) {
 
 // nested dicts (level 2): names c (exists in some states), d, ../x; values below
 func c19nested(thorough bool) []*c19dict {
-	names := []string{"c", "d", "../x"}
+	names := []string{"c", "d", "../x", ".."}
 	vals := []*c19ent{
 		c19str("n"),
 		{kind: kEmpty},
@@ -860,7 +860,7 @@ func c19atoms() (full, small, tiny []*c19ent) {
 
 // Keys containing "/" (e.g. a/b) and "." are deliberately not in the alphabet: neither the property nor the docs say
 // whether such keys are valid (the repository's own tests use "bar/baz" as a nested path), so no verdict is possible.
-var c19keys = []c19key{{name: "a"}, {name: "b"}, {name: "../x"}, {name: "../keep"}, {name: ""}, {isNum: true}}
+var c19keys = []c19key{{name: "a"}, {name: "b"}, {name: "../x"}, {name: "../keep"}, {name: ".."}, {name: ""}, {isNum: true}}
 
 // ---------------------------------------------------------------- the check
 
